@@ -41,6 +41,26 @@ def run_child(path, n, scen, hold_fd=None, timeout=60):
     return p.returncode, p.stdout.decode().strip().splitlines(), p.stderr.decode()[-300:]
 
 
+def start_child_until_dead(path, n, scen, timeout=60):
+    """Start the child and wait until it is dead *without reaping it*: while the probes run its pid still
+    exists (a zombie), as it does for any parent that has not called wait() yet."""
+    p = subprocess.Popen([PY, '-m', 'vf.props.crash_child', path, str(n), scen], env=_env(), cwd=VERIF,
+                         stdout=subprocess.PIPE, stderr=subprocess.PIPE)
+    t0 = time.time()
+    while True:
+        try:
+            r = os.waitid(os.P_PID, p.pid, os.WEXITED | os.WNOWAIT | os.WNOHANG)
+        except ChildProcessError:
+            r = True
+        if r is not None:
+            break
+        if time.time() - t0 > timeout:
+            p.kill()
+            break
+        time.sleep(0.002)
+    return p
+
+
 class C13(Check):
     pid = 'C13'
     level = 'fault_enumeration'
@@ -127,12 +147,20 @@ class C13(Check):
             hold = os.open(path, os.O_RDWR | os.O_CREAT)
             fcntl.flock(hold, fcntl.LOCK_EX)
         try:
-            rc, out, err = run_child(path, n, scen)
+            proc = start_child_until_dead(path, n, scen)
         finally:
             if hold is not None:
                 os.close(hold)
+        self._zombie = proc            # reaped by reap() after the probes
+        # the pipe has everything the child wrote before it died
+        os.set_blocking(proc.stdout.fileno(), False)
+        try:
+            out = (proc.stdout.read() or b'').decode().strip().splitlines()
+        except Exception:
+            out = []
         kl = [l for l in out if l.startswith('KILL')]
-        if rc != -signal.SIGKILL or not kl:
+        if not kl:
+            self.reap()
             st['crash_point_not_reached'] += 1
             return None
         _, nn, qual, line, locked, extra = kl[0].split()
@@ -144,6 +172,25 @@ class C13(Check):
         elif int(extra) > 0:
             st['killed_with_lockfile_open_not_locked'] += 1
         return info
+
+    _zombie = None
+
+    def reap(self):
+        p = self._zombie
+        self._zombie = None
+        if p is not None:
+            try:
+                rc = p.wait(timeout=30)
+            except Exception:
+                p.kill()
+                rc = p.wait()
+            for f in (p.stdout, p.stderr):
+                try:
+                    f.close()
+                except Exception:
+                    pass
+            return rc
+        return None
 
     def run_case(self, case):
         res = CaseResult()
@@ -158,7 +205,11 @@ class C13(Check):
                 if info is None:
                     res.sample = {'scenario': scen, 'n': case['n'], 'note': 'crash point not reached'}
                     return res
-                self.probe_both(path, res, {'scenario': scen, 'killed': info})
+                self.probe_both(path, res, {'scenario': scen, 'killed': info, 'holder_reaped': False})
+                st['probed_before_the_dead_holder_was_reaped'] += 1
+                rc = self.reap()
+                if rc != -signal.SIGKILL:
+                    res.inconclusive = f'child did not die of SIGKILL (rc={rc})'
                 res.nontrivial = info['held_kernel_lock'] or info['extra_fds_open'] > 0
                 res.tags = {f'killed_at:{info["at"]}'}
                 res.sample = {'scenario': scen, 'killed': info, 'probe': 'acquired at first non-blocking attempt'
@@ -220,6 +271,7 @@ class C13(Check):
                         ok = True
                         break
                     time.sleep(0.01)
+                self.reap()
                 if ok:
                     st['survivors_progressed_after_kill'] += 1
                 else:
